@@ -83,6 +83,7 @@ class PathRun:
         self.events = []
         self.recording = False
         self.digest = hashlib.sha256()
+        self.digest_hi = hashlib.sha256()
         self.samples = []
         self.nontrivial = set()
         self.fresh = 0
@@ -203,7 +204,7 @@ class PathRun:
             if k not in seen:
                 seen.add(k)
                 uniq.append(v)
-        return {"violations": uniq[:6], "cfg": self.cfg, "ops": self.ops, "stats": self.stats, "digest": self.digest.hexdigest(),
+        return {"violations": uniq[:6], "cfg": self.cfg, "ops": self.ops, "stats": self.stats, "digest": self.digest.hexdigest(), "digest_hi": self.digest_hi.hexdigest(),
                 "nontrivial_keys": sorted(self.nontrivial), "world": {"virtual_s": w.virtual_s, "nreq": nreq},
                 "fs": {"bypass": len(FS.bypass), "bypass_sample": FS.bypass[:3]}, "samples": self.samples}
 
@@ -275,7 +276,11 @@ class PathRun:
             self.judge(op, target, status, r, evs)
         finally:
             FS.active = a
-        self.digest.update(("%s %s %s %d\n" % (method, target, status, len(evs))).encode())
+        # (the recorded spelling of the path: a host path contains the scratch directory's name)
+        self.digest.update(("%s %s %s %d\n" % (method, self.ops[-1]["path"], status, len(evs))).encode())
+        # the number of fs events depends on hash order inside dulwich: not part of the digest that is
+        # compared across hash seeds
+        self.digest_hi.update(("%s %s %s\n" % (method, self.ops[-1]["path"], status)).encode())
         if check4:
             self.oracle4(op, method, target, hdrs, body, status, pre_copy, pre_state)
 
